@@ -5,7 +5,7 @@ Q, T = "quick", "thorough"
 PROPS = {
     "C01": dict(
         bins={"main": dict(tc="gcc", src="prop_C01.cpp", variants=["plain", "hp"], shims=["hp"])},
-        parts=[dict(name="gp", workers={Q: 16, T: 16}, cases={Q: 1500, T: 30000})],
+        parts=[dict(name="gp", workers={Q: 16, T: 16}, cases={Q: 1200, T: 30000})],
         rule=("cases = closed subject/clip path sets (random 3-10 vertex paths, nested rings, star polygons {n/k}, doubly "
               "traversed rings, convex pairs, many-short-edge walks; base range 2^10..2^20, optionally scaled by 2^k and "
               "translated up to 2^40 / 2^61 with low-bit jitter) that pass the exact general-position predicate (every "
